@@ -1,8 +1,8 @@
 package main
 
 import (
-	"encoding/hex"
 	"crypto/sha256"
+	"encoding/hex"
 	"encoding/json"
 	"flag"
 	"fmt"
@@ -18,8 +18,8 @@ import (
 )
 
 type propCheck struct {
-	ID    string
-	Run   func(c *Ctx, r *Report)
+	ID     string
+	Run    func(c *Ctx, r *Report)
 	NeedCG bool
 }
 
@@ -32,15 +32,15 @@ func register(id string, run func(c *Ctx, r *Report)) {
 // Mutant: a source edit applied through packages.Config.Overlay (nothing is written under the repo).
 // The check must fire and name a construct containing Expect (rule id and/or construct substring).
 type Mutant struct {
-	Prop    string
-	Name    string
-	File    string // repo-relative
-	Old     string
-	New     string
-	Rule    string // rule expected to fire
-	Expect  string // substring expected in the construct of the violation (may be "")
-	Canary  bool   // also run in the quick tier as the positive control
-	Edits   []Edit // additional edits (other files)
+	Prop   string
+	Name   string
+	File   string // repo-relative
+	Old    string
+	New    string
+	Rule   string // rule expected to fire
+	Expect string // substring expected in the construct of the violation (may be "")
+	Canary bool   // also run in the quick tier as the positive control
+	Edits  []Edit // additional edits (other files)
 }
 
 type Edit struct {
@@ -215,9 +215,9 @@ func runMutants(c *Ctx, r *Report, prop, tier, repo, verifDir string, seed int) 
 	}
 	self, _ := os.Executable()
 	type res struct {
-		m       Mutant
-		status  string // killed | survived | inapplicable | error
-		detail  string
+		m      Mutant
+		status string // killed | survived | inapplicable | error
+		detail string
 	}
 	results := make([]res, len(sel))
 	var wg sync.WaitGroup
